@@ -144,6 +144,8 @@ inductive Op where
   | reset (i : Nat)                      -- reset_scenario_cache
   | step (i : Nat) (d : Dict) (t : Nat)  -- SdRunner.run_scenario_step for scenario i at session step t with step settings d
   | evalBase                             -- base model evaluated directly (Element.__call__/plot, model.equation)
+  | setup (i : Nat)                      -- `setup_constants` / `setup_points`: a manager loaded from scenario FILES writes the
+                                         -- scenario's constants and points into its model as soon as the model is instantiated
 deriving Repr
 
 def updFn {α : Type} (f : Nat → α) (k : Nat) (v : α) : Nat → α := fun x => if x = k then v else f x
@@ -182,6 +184,12 @@ def configureScn (st : State) (i : Nat) (s : Scn) (d : Dict) : State :=
                         (if s.cShared then Store.update p.1 d.consts else p.1,
                          if s.pShared then Store.update p.2 d.pts else p.2)) }
   else { st with scns := updFn st.scns i (some s1) }
+
+/-- `SimulationScenario.setup_constants` / `setup_points` (file-loaded managers, `instantiate_model`): the scenario's
+constants and points are written into its model; run specs and memo are not touched. -/
+def setupScn (st : State) (s : Scn) : State :=
+  { st with he := updFn st.he s.ref (Store.update (st.he s.ref) (scnConsts st s))
+            hp := updFn st.hp s.ptsRef (Store.update (st.hp s.ptsRef) (scnPts st s)) }
 
 /-- evaluate: the memo cell receives a generation computed under the effective settings -/
 def simulate (st : State) (s : Scn) (t : Option Nat) : State :=
@@ -263,6 +271,10 @@ def step (c : Cfg) (b : Base) (st : State) : Op → State
                                 scns := updFn st1.scns i (some s2) }
           simulate st2 s2 (some t)
   | .evalBase => { st with hm := updFn st.hm 0 (st.hm 0 ++ [(baseEff b st, none)]) }
+  | .setup i =>
+      match st.scns i with
+      | none => st
+      | some s => setupScn st s
 
 def exec (c : Cfg) (b : Base) (ops : List Op) : State := ops.foldl (step c b) (State.init b)
 
@@ -289,6 +301,9 @@ def Solo.eff (s : Solo) : Eff := { eqs := s.meqs, pts := s.mpts, rs := s.mrs, el
 
 def Solo.apply (s : Solo) : Solo :=
   { s with meqs := Store.update s.meqs s.consts, mpts := Store.update s.mpts s.pts, mrs := s.rs }
+
+def Solo.setup (s : Solo) : Solo :=
+  { s with meqs := Store.update s.meqs s.consts, mpts := Store.update s.mpts s.pts }
 
 def Solo.simulate (s : Solo) (t : Option Nat) : Solo := { s with memo := s.memo ++ [(s.eff, t)] }
 
@@ -330,6 +345,7 @@ def soloStep (b : Base) (i : Nat) (ss : SoloSt) : Op → SoloSt
   | .reset j => if j = i then { ss with s := ss.s.map Solo.reset } else ss
   | .step j d t => if j = i then { ss with s := ss.s.map (Solo.step · d t) } else ss
   | .evalBase => ss
+  | .setup j => if j = i then { ss with s := ss.s.map Solo.setup } else ss
 
 def soloExec (b : Base) (i : Nat) (ops : List Op) : SoloSt :=
   ops.foldl (soloStep b i) { mgrs := fun _ => none, s := none }
